@@ -690,8 +690,8 @@ func runRows(prop string) func(p *Prog, r *Report) {
 					}
 					if rw.exact != nil {
 						var extra []string
-						for _, a := range fn.GuardsAt(em).Atoms() {
-							if safeAtom(fn, a) {
+						for _, a := range fn.GuardsAt(em).AllAtoms() {
+							if a == nil || safeAtom(fn, a) {
 								continue
 							}
 							allowed := false
